@@ -257,3 +257,26 @@ def graph_gens(n, gid):
                 rows[j] |= 1 << i
             idx += 1
     return [(1 << v) + W * rows[v] for v in range(n)]
+
+
+def commute(p, q):
+    x1, z1 = p % W, (p // W) % W
+    x2, z2 = q % W, (q // W) % W
+    return (popc(x1 & z2) + popc(z1 & x2)) % 2 == 0
+
+
+def neighbour_last_generators(n, gens):
+    """All Paulis (sign-free codes) that can replace the LAST generator of a valid stabilizer so that the list is again a valid stabilizer of a
+    DIFFERENT group: commute with the first n-1 generators and lie outside the span of all n (64 candidates for n = 6). Untrusted input builder."""
+    span = {0}
+    for g in gens:
+        span |= {e ^ (g % W2) for e in span}
+    out = []
+    for x in range(1 << n):
+        for z in range(1 << n):
+            p = x + W * z
+            if p in span:
+                continue
+            if all(commute(p, g) for g in gens[:-1]):
+                out.append(p)
+    return out
